@@ -2,8 +2,18 @@
 from props.bngen import hx, magnitude, signed
 
 TRUSTED = [
-    "class A (Model/NtMod.lean, executed by the driver on every line, proved in Lemmas/NtMod*.lean): bn_srt (binary search as coded; "
-    "srt_exact: = Nat.sqrt for every a >= 0 within the supplied fuel; error for a < 0)",
+    "class A (Model/NtMod.lean, value level over the C01 digit layer, executed by the driver on every nt_srt / nt_mod line with the model's "
+    "prediction in the model column; proved in Lemmas/NtMod*.lean, theorems in Props/C09Mod.lean): bn_srt (binary search as coded; srt_exact: "
+    "= Nat.sqrt for every a >= 0 within the supplied fuel; error for a < 0); bn_mod_pre_barrt + bn_mod_barrt (early exit, long-operand "
+    "fallback, truncated difference with wrap-around, correction loop; mod_barrt_exact: = a mod m for all a >= 0, m > 0, w >= 2; "
+    "mod_barrt_corrections_le: at most 2 corrections); bn_mod_pre_monty (Newton iteration with the compiled number of steps; "
+    "pre_monty_exact for 4 <= w <= 64), bn_mod_monty_basic / _comba / bn_mod_monty / _back as REDC (mod_monty_exact, monty_back_exact: "
+    "canonical r with r*R = a mod m for 0 <= a < m*R), bn_mod_monty_conv (monty_conv_exact); bn_mod_pre_pmers + bn_mod_pmers "
+    "(mod_pmers_exact for all a >= 0 and EVERY m > 0; mod_pmers_fold_terminates; mod_pmers_neg states the value for a < 0)",
+    "Mod family, value-level abstraction: bn_muld_low / bn_modn_low / bn_mula_low are not modelled digit by digit (the code's `mu` lower limit "
+    "is always 0, the upper limit is a truncation mod B^(k+1)); Montgomery reduction outside its contract (a < 0, a >= m*R, more than 2k "
+    "digits) is mirrored by the model but not judged by the spec column; negative operands of bn_mod_barrt / bn_mod_pmers with |a| < m or "
+    "m | a are not presented (findings/C09-ext-mod-1: the library returns a resp. m)",
 ]
 CORPUS = ["nt_srt 0", "nt_srt 1", "nt_srt 2", "nt_srt 3", "nt_srt 4", "nt_srt -1", "nt_srt -4"]
 
